@@ -292,6 +292,19 @@ def run(ctx):
                     eps, ref["bond"][-1], mode, got["bond"][-1]), {"generic": [mode, eps]})
             elif max(np.max(np.abs(np.array(a) - np.array(b))) for a, b in zip(got["dm"], ref["dm"])) > 1e-10:
                 ctx.violation("C10:%s:modes-differ-states" % mode, "epsrel=%g" % eps, {"generic": [mode, eps]})
+    # chains assembled incrementally and used in between (ChainBuild.tla: the full bond Liouvillians after every add_* call,
+    # Trotter layers and gates at the end): a chain object that was used once must still see terms added afterwards
+    from harness.extras import chainbuild
+    cb_cases = []
+    for n_ in (2, 3):
+        rcb = ctx.tlc("ChainBuild", chainbuild.CFG, label="chain assembly, L=%d" % n_, workers=4,
+                      constants={"L": str(n_), "NTerms": "2", "MaxOps": "2", "Dev": '"none"', "Emit": "TRUE"})
+        cb_cases += rcb.cases[::(2 if quick else 1)]
+    for c_, mm in zip(cb_cases, core.pmap(chainbuild.replay_history, cb_cases, chunksize=8)):
+        hd = chainbuild.digest(c_)
+        ctx.case({"chain_assembly": hd, "L": c_["L"]}, nontrivial=True)
+        for x in mm:
+            ctx.violation("C10:chain-assembly:%s" % x["what"], "L=%d %s: %s" % (c_["L"], hd, x), {"assembly_case": c_})
     ctx.rule = ("chain configurations of Chain.tla (7-10 fixed and 12 / 60 seed-drawn ones: lengths 2..4, Trotter orders 1/2, ancilla environments, controls; TLC "
                 "explores every completion order of every gate layer) x execution modes {sequential, multithread, "
                 "multiprocess with real pools in fresh interpreters, order-controlled executor}; uncoupled chains vs "
@@ -311,7 +324,10 @@ def replay(ctx, rep):
         if a != b:
             ctx.violation("C10:replay:modes-differ", "%s" % c["generic"], c)
         return
-    if "twosite" in c:
+    if "assembly_case" in c:
+        from harness.extras import chainbuild
+        mm = chainbuild.replay_history(c["assembly_case"])
+    elif "twosite" in c:
         mm = twosite_job(tuple(c["twosite"]))
     elif c.get("mode") == "sequential":
         mm = inprocess_job((c["case"], rep.get("seed", 0)))
